@@ -50,6 +50,21 @@ CHECKS["C04"] = dict(
     technique="symbolic execution of the real flux/update kernels + z3 queries (ite-encoded upwind switches; grid sums)",
     design="DESIGN.md section 5 C04")
 
+CHECKS["C16"] = dict(
+    text="Symbolic checking: compute_advection_diffusion_stable_timestep and the three simulators' compute_stable_timestep run on symbolic velocity fields (path forking on the real min()); "
+         "z3 shows dt > 0, linearity in the prefactor, and both limits (advective per cell, diffusive) for all velocity values, nu >= 0, cfl, dx > 0 in both precisions; the real diffusion "
+         "time-step kernel satisfies the discrete maximum principle for every p in [0, 1/(2d)] and leaves ring cells unchanged.",
+    technique="symbolic execution of the real Python + kernels with path exploration + z3 (QF_NRA inequalities)",
+    design="DESIGN.md section 5 C16")
+CHECKS["C17"] = dict(
+    text="Symbolic checking with an in-memory HDF5 stub: save/load of the real IO classes on arrays of solver variables restores every cell, time and grid, leaves sources untouched, and "
+         "produces the documented on-disk layout for every marker count of the family (including N == dim); with presence of every registered key and the stored grid parameters symbolic, all "
+         "paths of load() are explored and z3 shows that load returns only if every key is present and parameters agree within allclose, and raises only otherwise. Counterexamples are replayed "
+         "through real HDF5 files.",
+    technique="symbolic execution of the real IO code (h5py stubbed by its store/return contract) with path exploration over load() + z3; replay through real h5py",
+    design="DESIGN.md section 5 C17",
+    note="h5py replaced by an in-memory tree (faithful-store contract): bit fidelity of NaN/inf/denormals through the real library is outside the claim; exact real arithmetic; z3")
+
 NOT_APPLICABLE = {
     "C02": "convergence of whole simulations over resolution families: thousands of time steps of floating-point code on 32^2..128^2 grids; no bound on steps/sizes under which a solver query is still the property (DESIGN.md section 5 C02). Its solver-decidable ingredients are claimed under C01, C03, C05, C16.",
 }
